@@ -85,6 +85,12 @@ def c03_struct(tier="quick", seed=0):
         # make the method again for the receiver given to call/apply/bind
         txt = _S_.unparse(last.value) if isinstance(last, ast.Return) else ""
         ok = txt.startswith("methods.get(method, lambda *args: UNDEFINED)") or txt.startswith(f"self._for_receiver(methods.get(method, lambda *args: UNDEFINED), self.{fac}, ")
+        if not ok and fac == "_make_array_method" and txt.startswith("self._for_receiver(methods.get(method, lambda *args: UNDEFINED), self._array_method_for, "):
+            # arrays: the method for another receiver is made by _array_method_for, which only ever returns the same factory's
+            # method (same literal method name) for the receiver or for a fresh array of its elements, or raises
+            amf = S.fn("microjs.vm", "VM._array_method_for")
+            rets = [_S_.unparse(r_.value) for r_ in ast.walk(amf) if isinstance(r_, ast.Return) and r_.value is not None]
+            ok = bool(rets) and all(r_ in ("self._make_array_method(receiver, method)", "self._make_array_method(view, method)") for r_ in rets)
         out.append(ob(f"C03.struct.method-table.{fac}", ok, "K3", f"{fac} returns methods.get(method, <undefined fn>): {ok}"))
     fr = _S_.unparse(S.fn("microjs.vm", "VM._for_receiver"))
     out.append(ob("C03.struct.method-table.rebinding", "return make(this_val, method)" in fr and "raise JSTypeError(" in fr and "fn._rebind = rebind" in fr and "return fn" in fr, "K3",
